@@ -134,6 +134,9 @@ func (e *Exec) doAssert(id string, cond *Term, fault bool, msg string) {
 		}
 	}
 	if isNew {
+		if msg == "" && e.lastPanic != nil {
+			msg = "last panic: " + e.lastPanic.msg + " @ " + e.lastPanic.stack
+		}
 		bump(&st.Violated)
 		e.recordViolation(id, nc, negs, fault, msg)
 	}
